@@ -230,19 +230,6 @@ macro_rules! max {
     }};
 }
 
-/// Const evaluation of `min` for integers.
-macro_rules! min {
-    ($x:expr, $y:expr) => {{
-        let x = $x;
-        let y = $y;
-        if x <= y {
-            x
-        } else {
-            y
-        }
-    }};
-}
-
 /// Enumeration for how to round floats with precision control.
 ///
 /// For example, using [`Round`][RoundMode::Round], `1.2345` rounded
@@ -1337,15 +1324,12 @@ impl Options {
             //      assume it's a lot higher, and go with 64.
             64
         };
-        let digits = if let Some(max_digits) = self.max_significant_digits() {
-            min!(formatted_digits, max_digits.get())
+        // NOTE: `max_significant_digits` cannot shrink this: the writers emit
+        // all the significant digits into the buffer before truncating them.
+        let digits = if let Some(min_digits) = self.min_significant_digits() {
+            max!(formatted_digits, min_digits.get())
         } else {
             formatted_digits
-        };
-        let digits = if let Some(min_digits) = self.min_significant_digits() {
-            max!(digits, min_digits.get())
-        } else {
-            digits
         };
         count += digits;
 
